@@ -210,13 +210,18 @@ static void worker_main(Worker *w)
     w->cv.notify_all();
   }
 }
-static void ensure_workers(size_t n)
+static long g_thread_generations = 0;   // OS threads created so far (measured: reported in the summary)
+static long g_threads_retired    = 0;
+static void ensure_worker(size_t t)     // 1-based
 {
-  while (g_workers.size() < n)
+  if (g_workers.size() < t)
+    g_workers.resize(t);
+  if (!g_workers[t - 1])
   {
-    g_workers.emplace_back(new Worker);
-    Worker *w = g_workers.back().get();
+    g_workers[t - 1].reset(new Worker);
+    Worker *w = g_workers[t - 1].get();
     w->th     = std::thread(worker_main, w);
+    ++g_thread_generations;
   }
 }
 static void run_on(int t, const std::function<void()> &f)
@@ -226,7 +231,7 @@ static void run_on(int t, const std::function<void()> &f)
     f();
     return;
   }
-  ensure_workers((size_t)t);
+  ensure_worker((size_t)t);
   Worker *w = g_workers[(size_t)t - 1].get();
   std::unique_lock<std::mutex> l(w->m);
   w->job = f;
@@ -234,19 +239,32 @@ static void run_on(int t, const std::function<void()> &f)
   w->cv.notify_all();
   w->cv.wait(l, [&] { return !w->has; });
 }
+// The OS thread that plays model thread t FINISHES (is joined); the next operation of model thread t
+// runs on a newly created OS thread - which typically receives the recycled thread id / TLS block.
+// Only legal while the model thread's active-span stack is empty (the stack is thread-local).
+static void retire_worker(int t)
+{
+  if (t <= 0 || (size_t)t > g_workers.size() || !g_workers[(size_t)t - 1])
+    return;
+  Worker *w = g_workers[(size_t)t - 1].get();
+  {
+    std::lock_guard<std::mutex> l(w->m);
+    w->quit = true;
+    w->cv.notify_all();
+  }
+  w->th.join();
+  g_workers[(size_t)t - 1].reset();
+  ++g_threads_retired;
+}
 static void stop_workers()
 {
-  for (auto &w : g_workers)
-  {
-    {
-      std::lock_guard<std::mutex> l(w->m);
-      w->quit = true;
-      w->cv.notify_all();
-    }
-    w->th.join();
-  }
+  for (size_t t = 1; t <= g_workers.size(); ++t)
+    retire_worker((int)t);
   g_workers.clear();
 }
+// every id any RandomIdGenerator-backed tracer produced in this whole harness process (all behaviours /
+// programs, all threads and thread generations): fresh means distinct from ALL of them
+static std::set<std::string> g_all_traces, g_all_spans;
 
 // ---------------------------------------------------------------------------------------------
 static const char *TS1[] = {"foo=bar", "k1=v1,k2=v2"};
@@ -276,6 +294,10 @@ struct World
   std::vector<std::vector<std::unique_ptr<api::Scope>>> scopes;
   std::string ts_txt[3];
   bool gen_is_random;
+  // lifetime of the OS thread behind each model thread: 0 long-lived, 1 sometimes replaced, 2 replaced
+  // before every operation (thread-per-request); replacement only while its active-span stack is empty
+  int life[8];
+  bool hold[8];
 
   World(uint64_t s, bool rnd) : seed(s), random_ids(rnd), rng(s * 0x9E3779B97F4A7C15ull + 12345)
   {
@@ -286,6 +308,24 @@ struct World
     ts_txt[2]     = TS2[rng() % 2];
     gen_is_random = rng() % 2;
     scopes.resize(8);
+    for (int i = 0; i < 8; ++i)
+    {
+      life[i] = (int)(rng() % 3);
+      hold[i] = false;
+    }
+    life[1 + rng() % 3] = 2;   // at least one of the first three model threads is thread-per-operation
+  }
+  void maybe_recycle(int t)
+  {
+    if (t <= 0 || t >= 8 || !scopes[(size_t)t].empty())
+      return;
+    if (hold[t])
+    {
+      hold[t] = false;
+      return;
+    }
+    if (life[t] == 2 || (life[t] == 1 && rng() % 3 == 0))
+      retire_worker(t);
   }
 
   nostd::shared_ptr<api::TraceState> ts_obj(int id)
@@ -456,7 +496,7 @@ static bool start_matches(World &w, const json &exp, const api::SpanContext &c, 
   }
   else
   {
-    if (w.seen_traces.count(tr))
+    if (w.seen_traces.count(tr) || (w.random_ids && g_all_traces.count(tr)))
     {
       why = "expected a NEW trace id, got one that was already in use";
       return false;
@@ -467,9 +507,9 @@ static bool start_matches(World &w, const json &exp, const api::SpanContext &c, 
       return false;
     }
   }
-  if (w.span_sym.count(ssym) || w.seen_spans.count(sp))
+  if (w.span_sym.count(ssym) || w.seen_spans.count(sp) || (w.random_ids && g_all_spans.count(sp)))
   {
-    why = "span id is not fresh";
+    why = "span id is not fresh (already produced earlier in this execution)";
     return false;
   }
   if (!w.random_ids && !w.gen.spans.count(sp))
@@ -628,6 +668,7 @@ static bool run_behaviour(const json &steps, uint64_t seed, bool random_ids, Pro
       make_options(w, m, opt);
       opt.kind = (api::SpanKind)(w.rng() % 5);
       Entity en;
+      w.maybe_recycle(t);
       run_on(t, [&] { en.span = tracer->StartSpan("s", opt); });
       en.ctx       = en.span->GetContext();
       bool rec     = en.span->IsRecording();
@@ -642,6 +683,11 @@ static bool run_behaviour(const json &steps, uint64_t seed, bool random_ids, Pro
         w.span_sym[st["exp"]["span"].get<long>()]   = hx(en.ctx.span_id());
         w.seen_traces.insert(hx(en.ctx.trace_id()));
         w.seen_spans.insert(hx(en.ctx.span_id()));
+        if (w.random_ids)
+        {
+          g_all_traces.insert(hx(en.ctx.trace_id()));
+          g_all_spans.insert(hx(en.ctx.span_id()));
+        }
         w.ents.push_back(en);
       }
       else
@@ -669,6 +715,7 @@ static bool run_behaviour(const json &steps, uint64_t seed, bool random_ids, Pro
     {
       int t      = st["t"];
       Entity &en = w.ents[(size_t)st["e"].get<int>() - 1];
+      w.maybe_recycle(t);
       run_on(t, [&] {
         w.scopes[(size_t)t].emplace_back(new api::Scope(en.span));
       });
@@ -682,6 +729,7 @@ static bool run_behaviour(const json &steps, uint64_t seed, bool random_ids, Pro
     {
       int t      = st["t"];
       Entity &en = w.ents[(size_t)st["e"].get<int>() - 1];
+      w.maybe_recycle(t);
       run_on(t, [&] { en.span->End(); });
       en.ended = true;
       if (std::string(st["exported"]) != en.onEnd)
@@ -801,9 +849,10 @@ static int cmd_replay(const char *path, uint64_t seed, bool random_ids, bool ver
       std::cout << o.dump() << "\n";
     }
   }
-  std::cout << json{{"summary", true}, {"behaviours", n}, {"steps", nsteps}, {"starts", nstarts}, {"problems", bad}}.dump()
-            << std::endl;
   stop_workers();
+  std::cout << json{{"summary", true}, {"behaviours", n}, {"steps", nsteps}, {"starts", nstarts}, {"problems", bad},
+                    {"os_threads_created", g_thread_generations}, {"os_threads_finished", g_threads_retired}}.dump()
+            << std::endl;
   return 0;
 }
 
